@@ -7,10 +7,10 @@ trap 'git -C /repo worktree remove --force $w' EXIT
 demo=$(ls $d/demo*.py 2>/dev/null | head -1)
 [ -n "$demo" ] && cp $demo $w/ && demo=$w/$(basename $demo)
 if [ -n "$demo" ]; then
-  (cd $w && PYTHONPATH=$w timeout 600 /venv/bin/python $demo >/dev/null 2>&1); echo "demo on original: exit $?"
+  (cd $w && mkdir -p $w/.demo_home && HOME=$w/.demo_home PYTHONPATH=$w timeout 600 /venv/bin/python $demo >/dev/null 2>&1); echo "demo on original: exit $?"
 fi
 git -C $w apply $d/patch.diff || { echo "patch does not apply"; exit 2; }
 if [ -n "$demo" ]; then
-  (cd $w && PYTHONPATH=$w timeout 600 /venv/bin/python $demo >/dev/null 2>&1); echo "demo on mutant: exit $?"
+  (cd $w && mkdir -p $w/.demo_home && HOME=$w/.demo_home PYTHONPATH=$w timeout 600 /venv/bin/python $demo >/dev/null 2>&1); echo "demo on mutant: exit $?"
 fi
 cd "$(dirname "$0")/.." && VERIF_REPO=$w ./check $id --tier $tier; echo "check exit $?"
